@@ -258,6 +258,25 @@ Proof.
   apply (proj2 (Permutation_count_occ Nat.eq_dec _ _)). intros x.
   cnt x Pd. cnt x P1. cnt x P2. cnt x F. rewrite !count_occ_app. lia.
 Qed.
+(* the successful conversion followed by the drop of the resulting vector: what the conversions destroyed plus what the
+   generated Drop destroys for each output record is everything the inputs owned plus everything supplied, each once *)
+Theorem vec_of_records_then_drop : forall fl (sz al : N) inputs,
+  VecConv.flags_ok fl = true ->
+  Forall (fun x => holds ds TI cap A P (fst x) (snd x)) inputs ->
+  exists outs destroyed calls douts,
+    VecConv.run buf buf unit fault (nat * list nat) rconv sz al sz al fl (map snd inputs) (0%nat, []) =
+      (VecConv.Done outs (length inputs, destroyed), calls) /\
+    drop_all Q outs = Ok douts /\
+    Permutation (destroyed ++ douts) (owned_tokens inputs ++ supplied 0%nat inputs).
+Proof.
+  intros fl sz al inputs OK HF.
+  destruct (vec_of_records fl sz al inputs OK HF) as (outs & d & calls & E & _ & _ & Ho & Pd).
+  destruct (drop_all_outs inputs outs 0%nat Ho) as (douts & E1 & P1).
+  exists outs, d, calls, douts. split; [exact E|]. split; [exact E1|].
+  pose proof (out_tokens_perm inputs 0%nat) as F.
+  apply (proj2 (Permutation_count_occ Nat.eq_dec _ _)). intros x.
+  cnt x Pd. cnt x P1. cnt x F. rewrite !count_occ_app. lia.
+Qed.
 End VecRecords.
 
 (* ---------------------------------------------------------------- a pipeline: the vector goes through several variants *)
